@@ -52,6 +52,8 @@ type c28Input struct {
 	Kind   string         `json:"kind"`
 	Fields []string       `json:"fields,omitempty"`
 	Rate   int64          `json:"rate,omitempty"`
+	Drop   bool           `json:"drop,omitempty"`
+	Scope  string         `json:"scope,omitempty"`
 	Tids   []string       `json:"tids,omitempty"`
 	Rules  map[string]any `json:"rules,omitempty"` // Samplers section
 	Main   map[string]any `json:"main,omitempty"`  // sections of the main configuration file (kind mainconfig)
@@ -172,7 +174,29 @@ func c28Downstream(r *rand.Rand, allowDet bool) (string, map[string]any) {
 	}
 }
 
+// rule-level static SampleRate: validation puts no bound on it
+func c28RuleRate(r *rand.Rand) int64 {
+	return []int64{-1, -2, -(1 << 32), -(1 << 62), 0, 1, 2, 10, 1 << 31, 1 << 32, 1<<62 + 1}[r.Intn(11)]
+}
+
+// conditions that the fixed traces of c28Traces satisfy, so that rules behind them are reached
+var c28MatchingConds = []map[string]any{
+	{"Field": "a", "Operator": "exists"},
+	{"Field": "http.status", "Operator": "=", "Value": 200, "Datatype": "int"},
+	{"Field": "service", "Operator": "=", "Value": "s"},
+	{"Field": "nope", "Operator": "not-exists"},
+	{"Operator": "has-root-span", "Value": true},
+	{"Fields": []any{"missing", "service.name"}, "Operator": "starts-with", "Value": "n"},
+}
+
 func c28Condition(r *rand.Rand) map[string]any {
+	if r.Intn(3) == 0 {
+		c := map[string]any{}
+		for k, v := range c28MatchingConds[r.Intn(len(c28MatchingConds))] {
+			c[k] = v
+		}
+		return c
+	}
 	ops := []string{"=", "!=", ">", ">=", "<", "<=", "starts-with", "contains", "does-not-contain", "exists", "not-exists",
 		"has-root-span", "matches", "in", "not-in"}
 	c := map[string]any{"Operator": ops[r.Intn(len(ops))]}
@@ -205,7 +229,7 @@ func c28Rules(r *rand.Rand) map[string]any {
 				case 0:
 					rule["Drop"] = true
 				case 1:
-					rule["SampleRate"] = c28Int(r)
+					rule["SampleRate"] = c28RuleRate(r)
 				case 2:
 					k, m := c28Downstream(r, true)
 					rule["Sampler"] = map[string]any{k: m}
@@ -330,8 +354,10 @@ func c28GenReq(r *rand.Rand) c28Req {
 
 func c28Gen(r *rand.Rand, tier string, i int) any {
 	switch x := r.Intn(100); {
-	case x < 20:
+	case x < 15:
 		return c28Input{Kind: "keyfields", Fields: c28PickFields(r)}
+	case x < 25:
+		return c28Input{Kind: "rulerate", Rate: c28RuleRate(r), Drop: r.Intn(4) == 0, Scope: []string{"", "trace", "span"}[r.Intn(3)]}
 	case x < 40:
 		in := c28Input{Kind: "detrate", Rate: c28Rates[r.Intn(len(c28Rates))]}
 		for k := 0; k < 3; k++ {
@@ -484,6 +510,32 @@ func c28BuildAndDecide(cfg config.Config, res *c28Result, tids []string) {
 		for _, tr := range c28Traces() {
 			s.GetSampleRate(tr)
 		}
+		// A rules-based sampler stops at the first matching rule: give EVERY rule its turn, once with its own
+		// conditions as the only rule and once without conditions (so that it certainly matches).
+		if sc, _ := cfg.GetSamplerConfigForDestName(k); sc != nil {
+			if rc, ok := sc.(*config.RulesBasedSamplerConfig); ok {
+				for _, rule := range rc.Rules {
+					if rule == nil {
+						continue
+					}
+					for _, strip := range []bool{false, true} {
+						one := &config.RulesBasedSamplerRule{Name: rule.Name, SampleRate: rule.SampleRate, Drop: rule.Drop, Scope: rule.Scope, Sampler: rule.Sampler}
+						if !strip {
+							one.Conditions = rule.Conditions
+						}
+						rs := &sample.RulesBasedSampler{Config: &config.RulesBasedSamplerConfig{Rules: []*config.RulesBasedSamplerRule{one}, CheckNestedFields: rc.CheckNestedFields},
+							Logger: &logger.NullLogger{}, Metrics: &metrics.NullMetrics{}, SamplerFactory: f}
+						if rs.Start() != nil {
+							continue
+						}
+						res.Samplers++
+						for _, tr := range c28Traces() {
+							rs.GetSampleRate(tr)
+						}
+					}
+				}
+			}
+		}
 	}
 }
 
@@ -539,6 +591,32 @@ func c28Child(raw json.RawMessage) (Case, error) {
 			c28BuildAndDecide(cfg, &res, nil)
 		} else if err != nil {
 			res.RejectMsg = err.Error()
+		}
+	case "rulerate":
+		rule := map[string]any{"Name": "static", "SampleRate": in.Rate}
+		if in.Drop {
+			rule["Drop"] = true
+		}
+		if in.Scope != "" {
+			rule["Scope"] = in.Scope
+		}
+		samplers := map[string]any{"__default__": map[string]any{"RulesBasedSampler": map[string]any{"Rules": []any{rule}}}}
+		cfg, err := c28LoadConfig(dir, samplers)
+		c28Marker("loaded")
+		if cfg != nil {
+			res.Accepted = true
+			c28BuildAndDecide(cfg, &res, nil)
+		} else {
+			if err != nil {
+				res.RejectMsg = err.Error()
+			}
+			// not accepted: the model covers every int, so still run the sampler on the raw value
+			rs := &sample.RulesBasedSampler{Config: &config.RulesBasedSamplerConfig{Rules: []*config.RulesBasedSamplerRule{{Name: "static", SampleRate: int(in.Rate), Drop: in.Drop, Scope: in.Scope}}},
+				Logger: &logger.NullLogger{}, Metrics: &metrics.NullMetrics{}}
+			rs.Start()
+			for _, tr := range c28Traces() {
+				rs.GetSampleRate(tr)
+			}
 		}
 	case "mainconfig":
 		samplers := map[string]any{"__default__": map[string]any{"DeterministicSampler": map[string]any{"SampleRate": 1}}}
@@ -755,6 +833,17 @@ func c28Run(raw json.RawMessage) (Case, error) {
 		if in.Rate >= 1<<32 {
 			tags = append(tags, "rate>=2^32")
 		}
+	case "rulerate":
+		acc := res.Accepted
+		if crashed || hung {
+			acc = c28AcceptedOnly(in)
+		}
+		kind = cq.App("KRuleRate", cq.Bool(acc), cq.Bool(in.Drop), c28Z(in.Rate), cq.Bool(crashed || hung))
+		sum["rate"], sum["drop"], sum["scope"], sum["accepted"] = in.Rate, in.Drop, in.Scope, acc
+		if in.Rate <= 0 && !in.Drop {
+			nontriv = true
+			tags = append(tags, "rule-rate<=0")
+		}
 	case "config", "mainconfig":
 		acc := res.Accepted
 		loadCrashed, runCrashed := false, false
@@ -862,6 +951,8 @@ func c28AcceptedOnly(in c28Input) bool {
 		samplers = map[string]any{"__default__": map[string]any{"DynamicSampler": map[string]any{"SampleRate": 2, "FieldList": in.Fields}}}
 	case "detrate":
 		samplers = map[string]any{"__default__": map[string]any{"DeterministicSampler": map[string]any{"SampleRate": in.Rate}}}
+	case "rulerate":
+		samplers = map[string]any{"__default__": map[string]any{"RulesBasedSampler": map[string]any{"Rules": []any{map[string]any{"Name": "static", "SampleRate": in.Rate, "Drop": in.Drop}}}}}
 	default:
 		return false
 	}
